@@ -5,11 +5,11 @@ from ..common import *
 from .. import common, build, lean, check, script
 
 MODULE = "Dbus.Props.C08"
-THEOREMS = ["established_in_every_reachable_state", "authenticated_only_through_begin", "external_identity_is_the_sockets",
-            "cookie_needs_the_correct_response", "anonymous_only_where_permitted", "anonymous_identity_gate",
-            "nothing_authorized_before_ok", "cancel_forgets_identity", "failures_bounded", "gives_up_after_six",
-            "rejected_counts_failures", "end_states_are_final", "buffers_bounded", "consumed_is_a_prefix_of_lines",
-            "nothing_before_begin_is_message_data", "conforms_to_specification", "chunking_irrelevant"]
+THEOREMS = ["established_in_every_reachable_state", "nothing_authorized_before_ok", "authenticated_only_through_begin",
+            "external_identity_is_the_sockets", "cookie_needs_the_correct_response", "cookie_identity_is_the_owners",
+            "anonymous_only_where_permitted", "anonymous_identity_gate", "cancel_forgets_identity", "failures_bounded",
+            "gives_up_after_six", "rejected_counts_failures", "end_states_are_final", "buffers_bounded", "overflow_gives_up",
+            "nothing_before_begin_is_message_data", "conforms_to_specification"]
 
 MAXBUF = 16 * 1024
 MECHS = [b"EXTERNAL", b"DBUS_COOKIE_SHA1", b"ANONYMOUS"]
@@ -455,10 +455,245 @@ def run(ctx):
                                  "per write, bytes after BEGIN, partial and missing draining of replies",
                          "distribution": stats, "samples": [cases[0]["ops"][:12]] if cases else [],
                          "traces_validated_against_impl": len(cases)})
+    run_daemon(ctx)
     ctx.assumptions += ["kernel credentials, user database and keyring contents are parameters of the model (Env); the keyring code (dbus-keyring.c) is exercised "
                         "by the harness but only its result (cookie id, secret) enters the model",
                         "out-of-memory paths of dbus-auth.c are not modelled (C14)",
                         "the transport's identity gate (auth_via_default_rules / unix-user function) is modelled and proved about, and compared end to end by the daemon-level run"]
+
+
+# ---------------------------------------------------------------- daemon level
+
+DCONFIGS = [
+    {"name": "session-default", "auth": None, "anon": False, "allusers": False},
+    {"name": "all-users", "auth": None, "anon": False, "allusers": True},
+    {"name": "anonymous-enabled", "auth": ["ANONYMOUS", "EXTERNAL"], "anon": True, "allusers": True},
+    {"name": "anonymous-mech-without-allow-anonymous", "auth": ["ANONYMOUS", "DBUS_COOKIE_SHA1"], "anon": False, "allusers": True},
+    {"name": "external-only-allow-anonymous", "auth": ["EXTERNAL"], "anon": True, "allusers": False},
+]
+
+
+def _read_quiet(sock, quiet, limit=3.0):
+    import select
+    buf, eof = b"", False
+    t0 = time.time()
+    while time.time() - t0 < limit:
+        r, _, _ = select.select([sock], [], [], quiet)
+        if not r:
+            break
+        try:
+            d = sock.recv(65536)
+        except (ConnectionResetError, OSError):
+            eof = True; break
+        if not d:
+            eof = True; break
+        buf += d
+    return buf, eof
+
+
+def _daemon_job(args):
+    import socket
+    from .. import bus, busdiff, wiregen
+    seed, cfg, nconn = args
+    rng = random.Random(seed)
+    home = tempfile.mkdtemp(prefix="authd-", dir=os.path.join(CACHE, "run")); os.chmod(home, 0o700)
+    os.environ["DBUS_TEST_HOMEDIR"] = home
+    rules = list(busdiff.SESSION.rules) + ([("default", True, {"user": "*"})] if cfg["allusers"] else [])
+    d = bus.Daemon(policy=busdiff.Policy(rules).to_xml(), auth=cfg["auth"], extra="<allow_anonymous/>" if cfg["anon"] else "",
+                   limits={"auth_timeout": 60000})
+    users = users_table()
+    out = []
+    try:
+        for _ in range(nconn):
+            uid = rng.choice([0, 0, 1000, 65534])
+            case = Case(rng, home, 0, users)
+            case.uid, case.pid, case.gids, case.label = uid, None, None, None
+            case.mechs = None if cfg["auth"] is None else [m.encode() for m in cfg["auth"]]
+            case.fd = True
+            write_keyring(home, rng, rng.choice(["fresh", "mixed", "none"])) if not os.path.exists(os.path.join(home, ".dbus-keyrings", CONTEXT.decode())) else None
+            old = os.geteuid()
+            if uid != old:
+                os.setegid(pwd.getpwuid(uid).pw_gid); os.seteuid(uid)
+            try:
+                sk = socket.socket(socket.AF_UNIX, socket.SOCK_STREAM); sk.connect(d.path)
+            finally:
+                if uid != old:
+                    os.seteuid(old); os.setegid(0)
+            first = rng.choice([b"\0"] * 30 + [b"", b"\x01", b"A"])
+            polite = rng.random() < 0.6
+            script_lines = []
+            if polite:
+                def good():
+                    mech = rng.choice(case.mechs or MECHS)
+                    if mech == b"EXTERNAL": return [b"AUTH EXTERNAL " + str(uid).encode().hex().encode()] if rng.random() < 0.7 else [b"AUTH EXTERNAL", b"DATA"]
+                    if mech == b"ANONYMOUS": return [b"AUTH ANONYMOUS " + b"x".hex().encode()]
+                    return [b"AUTH DBUS_COOKIE_SHA1 " + rng.choice([b"0", b"root", str(uid).encode()]).hex().encode(), None]
+                script_lines = good()
+                if rng.random() < 0.3: script_lines += [b"NEGOTIATE_UNIX_FD"]
+                if rng.random() < 0.3: script_lines += [rng.choice([b"CANCEL", b"ERROR"])] + good()
+                script_lines += [b"BEGIN"]
+            sent, got, eof = b"", b"", False
+            st = "WaitingForAuth"
+            hello = bus.method_call(1, "org.freedesktop.DBus", "/org/freedesktop/DBus", "org.freedesktop.DBus", "Hello").marshal()
+            tail = rng.choice([hello] * 6 + [b"", b"garbage!", b"\0\0\0\0", hello[:20]])
+            chunks = []
+            began = False
+            for i in range(rng.randint(1, 8) if not polite else len(script_lines)):
+                line = case.line(st)
+                if polite:
+                    line = script_lines[i]
+                    if line is None:
+                        line = b"DATA " + case.cookie_response(True).hex().encode() if st == "WaitingForData" else b"DATA"
+                if len(line) > 4000:
+                    line = line[:50]
+                chunk = line + b"\r\n"
+                if rng.random() < 0.25 and not polite:
+                    chunk += case.line(st)[:200] + b"\r\n"
+                if st == "WaitingForBegin" and (chunk.startswith(b"BEGIN ") or chunk.startswith(b"BEGIN\r") or chunk.startswith(b"BEGIN\t")):
+                    chunk = chunk.split(b"\r\n")[0] + b"\r\n" + tail
+                    began = True
+                if i == 0:
+                    chunk = first + chunk
+                try:
+                    sk.sendall(chunk)
+                except OSError:
+                    eof = True
+                sent += chunk
+                b, e = _read_quiet(sk, 0.04)
+                got += b; eof = eof or e
+                for l in b.split(b"\r\n"):
+                    if l.startswith(b"OK "): st = "WaitingForBegin"
+                    elif l.startswith(b"REJECTED"): st = "WaitingForAuth"; case.last_challenge = None
+                    elif l.startswith(b"DATA"):
+                        st = "WaitingForData"
+                        try:
+                            f = bytes.fromhex(l[5:].decode()).split(b" ")
+                            if len(f) == 3 and f[1].isdigit():
+                                case.last_challenge = (int(f[1]), f[2])
+                        except ValueError:
+                            pass
+                if eof or began:
+                    break
+            b, e = _read_quiet(sk, 0.25)
+            got += b; eof = eof or e
+            # identity as the bus reports it
+            reported = None
+            k = got.find(b"l\x02")
+            if k >= 0 and not eof:
+                try:
+                    n = wiregen.message_length(got[k:])
+                    m = wiregen.parse_message(got[k:k + n])
+                    name = m.body[0] if m.body else None
+                    if name:
+                        q = bus.method_call(2, "org.freedesktop.DBus", "/org/freedesktop/DBus", "org.freedesktop.DBus", "GetConnectionUnixUser", "s", [name]).marshal()
+                        sk.sendall(q)
+                        b2, e2 = _read_quiet(sk, 0.25)
+                        n2 = wiregen.message_length(b2)
+                        m2 = wiregen.parse_message(b2[:n2])
+                        reported = ("uid", m2.body[0]) if m2.mtype == 2 else ("error", (m2.get(4) or b"").decode())
+                except Exception as ex:
+                    reported = ("parse-failure", repr(ex))
+            sk.close()
+            out.append({"cfg": cfg["name"], "uid": uid, "sent": sent.hex(), "got": got.hex(), "eof": eof, "reported": reported,
+                        "cookies": {str(k): v.decode() for k, v in read_keyring(home).items()}, "alive": d.alive()})
+            if not d.alive():
+                break
+    finally:
+        rc, err = d.stop() if hasattr(d, "stop") else (0, "")
+        shutil.rmtree(home, ignore_errors=True)
+    return {"conns": out, "stderr": (err or "")[-1500:] if isinstance(err, str) else ""}
+
+
+def run_daemon(ctx):
+    from .. import wiregen
+    nper = 12 if ctx.quick() else 150
+    jobs = [(ctx.seed * 1000003 + 97 * j, DCONFIGS[j % len(DCONFIGS)], nper) for j in range(10)]
+    with ProcessPoolExecutor(10) as ex:
+        res = list(ex.map(_daemon_job, jobs))
+    conns = [c for r in res for c in r["conns"]]
+    users = users_table()
+    # the model's view of every connection
+    lines, plan = [], []
+    for c in conns:
+        cfg = [x for x in DCONFIGS if x["name"] == c["cfg"]][0]
+        sent = bytes.fromhex(c["sent"])
+        if not sent.startswith(b"\0"):
+            plan.append(None); continue
+        got = bytes.fromhex(c["got"])
+        chs = []
+        for l in got.split(b"\r\n"):
+            m = re.match(rb"^DATA ([0-9a-f]+)$", l)
+            if m:
+                f = bytes.fromhex(m.group(1).decode()).split(b" ")
+                if len(f) == 3 and f[0] == CONTEXT and f[1].isdigit():
+                    chs.append("1:%d:%s" % (int(f[1]), f[2].hex()))
+        lines.append("auth reset uid=%d pid=- gids=- label=- mechs=%s fd=1 guid=%s context=%s self=0 users=%s cookies=%s" % (
+            c["uid"], "*" if cfg["auth"] is None else ",".join(m.encode().hex() for m in cfg["auth"]), (b"0" * 32).hex(), CONTEXT.hex(),
+            ",".join("%s:%d" % (n.hex(), u) for n, u in users.items()) or "-",
+            ",".join("%s:%s" % (i, v.encode().hex()) for i, v in c["cookies"].items()) or "-"))
+        lines.append("auth feed " + hx(sent[1:]) + "".join(" " + x for x in chs))
+        plan.append(len(lines) - 1)
+    model, _ = script.run_model("\n".join(lines) + "\n") if lines else ([], "")
+    ok = True
+    stats = {"connections": len(conns), "accepted": 0, "refused_at_gate": 0, "not_authenticated": 0, "no_nul_byte": 0, "anonymous_accepted": 0, "by_config": {}}
+    for c, pl in zip(conns, plan):
+        cfg = [x for x in DCONFIGS if x["name"] == c["cfg"]][0]
+        got = bytes.fromhex(c["got"])
+        replay = {"kind": "auth-daemon", "config": cfg, "uid": c["uid"], "sent": c["sent"], "got": c["got"], "reported": c["reported"]}
+        stats["by_config"][c["cfg"]] = stats["by_config"].get(c["cfg"], 0) + 1
+        if not c["alive"]:
+            ok = False
+            ctx.violate("dbus-daemon died during an authentication handshake", dict(replay), True); continue
+        if pl is None:
+            stats["no_nul_byte"] += 1
+            if got or not c["eof"]:
+                ok = False
+                ctx.violate("a connection that did not start with the NUL credentials byte was answered or kept open", replay, True)
+            continue
+        m = model[pl]
+        exp = unhx(fld(m, "new"))
+        k = got.find(b"l\x02") if b"l\x02" in got else (got.find(b"l\x03") if b"l\x03" in got else -1)
+        sasl = got if k < 0 else got[:k]
+        mask = lambda b: re.sub(rb"OK [0-9a-f]{32}", b"OK " + b"0" * 32, b)
+        st = fld(m, "st")
+        idu = fld(m, "id").split("/")[0]
+        accept = st == "Authenticated" and ((idu != "-" and (cfg["allusers"] or idu == "0")) or (idu == "-" and cfg["anon"]))
+        unused = int(fld(m, "in"))
+        if mask(sasl) != mask(exp):
+            ok = False
+            ctx.violate("dbus-daemon's handshake replies differ from the model's: got %r expected %r" % (mask(sasl)[:200], mask(exp)[:200]),
+                        dict(replay, model=m), False); continue
+        served = k >= 0
+        if served and not accept:
+            ok = False
+            ctx.violate("the bus served a connection that the handshake/identity gate must refuse (model: %s, identity %s, config %s)" % (st, fld(m, "id"), cfg["name"]),
+                        dict(replay, model=m), True); continue
+        if st == "Authenticated":
+            if accept:
+                stats["accepted"] += 1
+                if idu == "-": stats["anonymous_accepted"] += 1
+                rep = c["reported"]
+                if served and rep is not None:
+                    if idu != "-" and tuple(rep) != ("uid", int(idu)):
+                        ok = False
+                        ctx.violate("the bus reports identity %s for a connection authenticated as uid %s" % (rep, idu), dict(replay, model=m), True)
+                    if idu == "-" and rep[0] == "uid":
+                        ok = False
+                        ctx.violate("the bus reports uid %s for an anonymous connection" % (rep[1],), dict(replay, model=m), True)
+            else:
+                stats["refused_at_gate"] += 1
+                if not c["eof"]:
+                    ok = False
+                    ctx.violate("a connection whose identity the gate refuses was not closed", dict(replay, model=m), True)
+        else:
+            stats["not_authenticated"] += 1
+            if st == "NeedDisconnect" and not c["eof"]:
+                ok = False
+                ctx.violate("the handshake ended in NeedDisconnect but the connection was kept open", dict(replay, model=m), True)
+    ctx.oblige("correspondence K:auth-daemon (real sockets and credentials: SASL replies, acceptance by the identity gate, identity reported by the bus, bytes after BEGIN as messages)",
+               "correspondence", ok)
+    ctx.coverage.setdefault("distribution", {})["daemon_level"] = stats
+    ctx.coverage["evaluations"] = ctx.coverage.get("evaluations", 0) + len(conns)
 
 
 def replay(path):
